@@ -71,6 +71,10 @@ def case_st(draw):
         'in_handler': draw(st.sampled_from([None, None, None, 'connect', 'message', 'disconnect'])),
         'server_greets': draw(st.sampled_from([0, 0, 1, 2])),
         'steps': draw(st.lists(step_st, max_size=6)),
+        # client handlers that take (virtual) time: the event is logged when the handler starts
+        'client_delay': draw(st.sampled_from([{}, {}, {}, {'message': 0.25}, {'disconnect': 0.25},
+                                              {'connect': 0.25},
+                                              {'message': 0.25, 'disconnect': 0.25}])),
     }
 
 
@@ -81,6 +85,7 @@ def check_case(case, ctx=None):
     cfg = {'ping_interval': case['I'], 'ping_timeout': case['T'], 'http_compression': False}
     H = TClientHarness if impl == 'thread' else AClientHarness
     h = H(cfg, faults=case['faults'])
+    h.handler_delay = dict(case.get('client_delay') or {})
     h.world.app_log.connect_sends = ['greeting%d' % i for i in range(case.get('server_greets', 0))]
     cl = h.client
     I, T = case['I'], case['T']
@@ -294,6 +299,8 @@ def check_case(case, ctx=None):
                 cls.append('disconnect-in-%s-handler' % ih)
             if cycles >= 2:
                 cls.append('cycles>=2')
+            for k in sorted(case.get('client_delay') or {}):
+                cls.append('slow-client-%s-handler' % k)
             ctx.case(rep, nt, cls)
     finally:
         h.teardown()
